@@ -568,3 +568,38 @@ shim_getopt(int table, int argc, char ** argv, int opterr_on, int * nopts,
 out:
 	return (rc);
 }
+
+/* ------------------------------------------------------------------ fclose that reports failure
+ * (ld --wrap=fclose, rapidcheck binary only).  The stream IS closed and released -- that is what fclose does even when it returns EOF (a delayed
+ * write error on NFS, EINTR, EIO from close(2)) -- and then the caller is told that it failed. */
+#ifdef C15_WRAP_FCLOSE
+int __real_fclose(FILE *);
+static int fclose_fail_in;
+static int fclose_failed;
+
+void
+shim_fclose_fail_next(int n)
+{
+
+	fclose_fail_in = n;
+	fclose_failed = 0;
+}
+
+int shim_fclose_failed(void) { return (fclose_failed); }
+
+int
+__wrap_fclose(FILE * f)
+{
+	int rc = __real_fclose(f);
+
+	if ((fclose_fail_in > 0) && (--fclose_fail_in == 0)) {
+		fclose_failed = 1;
+		errno = EIO;
+		return (EOF);
+	}
+	return (rc);
+}
+#else
+void shim_fclose_fail_next(int n) { (void)n; }
+int shim_fclose_failed(void) { return (0); }
+#endif
